@@ -542,12 +542,12 @@ pub fn stream(storage: bool) -> BoxedStrategy<Vec<u8>> {
                     }
                     4 => {
                         if let Some(x) = &mut cur.ext {
-                            x.apid = ["APP", "A", "", "CTX"][r % 4].to_string();
+                            x.apid = ["APP", "A", "", "CTX", "A\0bc", "\0xyz"][r % 6].to_string();
                         }
                     }
                     5 => {
                         if let Some(x) = &mut cur.ext {
-                            x.ctid = ["CTX", "CON", "APP", ""][r % 4].to_string();
+                            x.ctid = ["CTX", "CON", "APP", "", "CO\0N", "CTX"][r % 6].to_string();
                         }
                     }
                     6 => cur.mcnt = r as u8,
